@@ -275,3 +275,48 @@ def install_subst_hook():
         return True
 
     Survey._var_repl_function = icontract.ensure(reaches_target, error=SubstBroken)(Survey._var_repl_function)
+
+
+# ----------------------------------------------------------------------------- H-outval
+def install_outval_hook():
+    """Post-condition on Survey.insert_output_values: when the text is rewritten (references -> <output/>), the result
+    must parse as an XML fragment whose text segments are exactly the literal segments of the input."""
+    if "outval" in _installed or not _guard():
+        return
+    _installed.add("outval")
+    import icontract
+    from lxml import etree
+    from pyxform.survey import Survey
+
+    class OutvalBroken(Exception):
+        pass
+
+    ref_re = re.compile(r"\$\{(last-saved#)?([^}]*)\}")
+
+    def literal_text_preserved(self, text, result, context=None):
+        _bump("outval")
+        new, changed = result
+        if not changed:
+            return True
+        _bump("outval_changed")
+        if "instance(" in text:
+            return True  # instance() expressions are replaced as a whole: boundaries are the lexer's business
+        try:
+            frag = etree.fromstring(("<x>" + new + "</x>").encode("utf-8"))
+        except etree.XMLSyntaxError as e:
+            _note("outval_violations", f"insert_output_values({text!r}) returned a string that is not a well-formed fragment: {e}")
+            return True
+        segs = [frag.text or ""]
+        bad = []
+        for ch in frag:
+            if not isinstance(ch.tag, str) or ch.tag != "output":
+                bad.append(str(ch.tag))
+            segs.append(ch.tail or "")
+        lits = ref_re.split(text)[0::3]
+        if bad:
+            _note("outval_violations", f"insert_output_values({text!r}) produced child element(s) {bad} besides <output>")
+        elif segs != lits:
+            _note("outval_violations", f"insert_output_values({text!r}): literal segments {lits} came back as {segs}")
+        return True
+
+    Survey.insert_output_values = icontract.ensure(literal_text_preserved, error=OutvalBroken)(Survey.insert_output_values)
